@@ -17,6 +17,7 @@ func runOther(req *request) *simkit.Outcome {
 		if err := json.Unmarshal(req.Scenario, &sc); err != nil {
 			return &simkit.Outcome{Harness: "bad pw scenario: " + err.Error()}
 		}
+		sc.Expect = req.Expect
 		return pwrun.Run(&sc)
 	case "bw":
 		var sc bw.Scenario
